@@ -16,6 +16,7 @@ from collections import defaultdict, deque
 import z3
 
 from . import theory
+from . import containers   # containers
 from .interp import (Frame, MergeAbort, Obligation, Path, PathInfeasible, SymRaise, _Return,
                      mk_exc)
 from . import seqs
@@ -57,10 +58,12 @@ class Contract:
         self.note: str = g('note', '')
         self.loop_types: dict = g('loop_types', {})   # loop index -> {assigned variable: type string}
         self.aliases: dict = g('aliases', {})         # 'a.b': 'c.d'  -- input field a.b IS the object c.d
+        self.may_raise: list = g('may_raise', [])   # exceptions the function may raise under no stated condition
         self.pre = ci.methods.get('pre')
         self.post = ci.methods.get('post')
         self.raises = ci.methods.get('raises')
         self.decreases = ci.methods.get('decreases')   # termination measure (tuple), see seqs.lex_less
+        self.axioms = ci.methods.get('axioms')      # definitional facts about ghosts: assumed when verifying, not obliged at call sites
 
     @property
     def short(self) -> str:
@@ -229,6 +232,15 @@ class Explorer:
         P.modular_calls[c.short] = P.modular_calls.get(c.short, 0) + 1
         bound = self.bind_target(P, info, args, kwargs)
         short = c.short
+        for p_, tstr in c.params.items():
+            # an object argument whose class is unrelated to the class the contract was verified for
+            a_ = bound.get(p_)
+            if isinstance(a_, SObj) and a_.cls is not None:
+                t_ = self.types.parse_str(tstr, info.module.name, info.cls)
+                alts_ = [x[1] for x in (t_[1] if t_[0] == 'union' else (t_,)) if x[0] == 'obj']
+                if alts_ and len(alts_) == len(t_[1] if t_[0] == 'union' else (t_,)) and not any(
+                        self.index.is_subclass(a_.cls, ci_) or self.index.is_subclass(ci_, a_.cls) for ci_ in alts_):
+                    P.oblige(f'pre@{short}[type:{p_}]', 'pre', False, {'arg_class': a_.cls.name})
         if c.pre is not None:
             for k, cond in self._call_spec(P, c.pre, bound).items():
                 cond = P.truthy(cond)
@@ -245,6 +257,9 @@ class Explorer:
                 cond = P.truthy(cond)
                 if P.branch(cond, f'{short} raises {ename}'):
                     raise SymRaise(mk_exc(ename), f'contract {short}')
+        for ename in c.may_raise:
+            if P.branch(z3.Bool(P.fresh_name(f'{short}#may_raise_{ename}')), f'{short} may raise {ename}'):
+                raise SymRaise(mk_exc(ename), f'contract {short}')
         old = None
         needs_old = c.post is not None and 'old' in [a.arg for a in c.post.node.args.args]
         if needs_old:
@@ -270,7 +285,13 @@ class Explorer:
             if needs_old:
                 extra['old'] = old
             for k, cond in self._call_spec(P, c.post, bound, extra).items():
-                P.assume(P.truthy(cond), fact=True)
+                cond = P.truthy(cond)
+                if cond is False:
+                    # e.g. same_obj(result, input): a modular result is always a fresh object.  Silently dropping
+                    # the path would make every later obligation vacuous.
+                    raise Unsupported(f'post[{k}] of {short} is identically false at a modular call site '
+                                      f'(results are fresh objects: state aliasing by content, not identity)')
+                P.assume(cond, fact=True)
         return None if is_init else result
 
     def field_type(self, ci, fld):
@@ -304,6 +325,10 @@ class Explorer:
                 return [cp(x) for x in v]
             if isinstance(v, dict):
                 return {k: cp(x) for k, x in v.items()}
+            if isinstance(v, containers.MUTABLE):   # containers
+                if id(v) not in memo:
+                    memo[id(v)] = v.clone()
+                return memo[id(v)]
             return v
         ns = SObj(None, {k: cp(v) for k, v in bound.items()}, 'old')
         return ns
@@ -416,6 +441,9 @@ class Explorer:
         if c.pre is not None:
             for k, cond in self._call_spec(P, c.pre, bound).items():
                 P.assume(P.truthy(cond), fact=True)
+        if c.axioms is not None:
+            for k, cond in self._call_spec(P, c.axioms, bound).items():
+                P.assume(P.truthy(cond), fact=True)
         needs_old = c.post is not None and 'old' in [a.arg for a in c.post.node.args.args]
         old = self.snapshot(bound) if needs_old or True else None
         P.old = old
@@ -452,13 +480,18 @@ class Explorer:
                 # end of a loop-step path: its obligations (inv-step) are already recorded
                 res.outcome = 'loop-step'
                 return
+            except containers.LoopStepDone:   # containers: invariant-preservation path ends inside the loop
+                res.outcome = 'loop-step'
+                return
         res.outcome = outcome[0] if outcome[0] == 'return' else f'raise {outcome[1]}'
         # --- exceptional behaviour
         rz = self._call_spec(P, c.raises, bound) if c.raises is not None else {}
         if outcome[0] == 'raise':
             ename = outcome[1]
             key = ename if ename in rz else next((b for b in outcome[2] if b in rz), None)
-            if key is None:
+            if key is None and (ename in c.may_raise or any(b in c.may_raise for b in outcome[2])):
+                pass
+            elif key is None:
                 P.oblige(f'{short}#raises[unexpected:{ename}]', 'raises', False, {'where': outcome[3]})
             else:
                 P.oblige(f'{short}#raises[{key}]', 'raises', P.truthy(rz[key]), {'where': outcome[3]})
@@ -489,6 +522,16 @@ class Explorer:
                     pth = f'{path}.{k}'
                     if pth in c.modifies or any(pth.startswith(m + '.') for m in c.modifies):
                         continue
+                    if isinstance(cv, containers.SYM) or isinstance(pv, containers.SYM):   # containers
+                        if isinstance(pv, Lazy):
+                            ov = self.overrides.get(pv.name)
+                            g = containers.same_content(P, cv, (ov if ov is not None else pv.typ, pv.name))
+                        elif isinstance(pv, containers.SYM) and isinstance(cv, containers.SYM):
+                            g = containers.equal_content(cv, pv)
+                        else:
+                            g = False
+                        P.oblige(f'{c.short}#frame[{pth}]', 'frame', g)
+                        continue
                     if isinstance(pv, Lazy):
                         if isinstance(cv, Lazy):
                             continue
@@ -498,6 +541,8 @@ class Explorer:
                         if is_z3(cv) and z3.is_const(cv) and cv.decl().name() in (pv.name, pv.name + '#bits'):
                             continue
                         if isinstance(cv, EnumV) and is_z3(cv.idx) and z3.is_const(cv.idx) and cv.idx.decl().name() == pv.name:
+                            continue
+                        if isinstance(cv, containers.SymKey) and z3.is_const(cv.term) and cv.term.decl().name() == pv.name:   # containers
                             continue
                         if cv is None or isinstance(cv, Opaque) or isinstance(cv, (SymFloat,)):
                             # union resolved to None / opaque: fine if forced from this lazy
